@@ -325,15 +325,304 @@ Section Buf1.
     unfold buf1. nsimp. dcmp; try lia; try reflexivity; f_equal; lia.
   Qed.
 
-  Lemma chunk_nth data pos i :
-    nthN i (overwrite data pos (take n wr)) =
-    if i <? pos then nthN i data
-    else if i <? pos + n then nthN (i - pos) wr else nthN i data.
-  Proof.
-    nsimp. dcmp; try lia; try reflexivity.
-  Qed.
-
-  Lemma chunk_len data pos :
-    len (overwrite data pos (take n wr)) = N.max (len data) (pos + n).
-  Proof. nsimp. lia. Qed.
 End Buf1.
+
+Lemma chunk_nth (wr : list N) n : n <= len wr -> forall data pos i,
+  nthN i (overwrite data pos (take n wr)) =
+  if i <? pos then nthN i data
+  else if i <? pos + n then nthN (i - pos) wr else nthN i data.
+Proof.
+  intros Hwr data pos i. nsimp. dcmp; try lia; try reflexivity.
+Qed.
+
+Lemma chunk_len (wr : list N) n : n <= len wr -> forall data pos,
+  len (overwrite data pos (take n wr)) = N.max (len data) (pos + n).
+Proof. intros Hwr data pos. nsimp. lia. Qed.
+
+Lemma Inv_write np pg dl b c o lg off buf data pos wr :
+  Inv np pg dl b c off buf data pos -> wr <> [] ->
+  let n := N.min (len wr) (1020 - off) in
+  exists b' c' o' lg' off' buf' np' pg' dl',
+    pw_write wr (St b c o lg off buf) = (St b' c' o' lg' off' buf', Ok n) /\
+    Inv np' pg' dl' b' c' off' buf' (overwrite data pos (take n wr)) (pos + n).
+Proof.
+  intros [Hb Hdl Hc Hpg Hoff Hbuf Hpos Hbd Hdd Hpages] Hne n.
+  pose proof (len_pos_ne wr Hne) as Hwr.
+  assert (Hn0 : 0 < n) by (unfold n; lia).
+  assert (Hn1 : n <= len wr) by (unfold n; lia).
+  assert (Hn2 : off + n <= 1020) by (unfold n; lia).
+  pose proof (buf1_len buf wr off n Hbuf Hn2 Hn1) as Hl1.
+  pose proof (buf1_nth buf wr off n Hbuf Hn2 Hn1) as Hn1th.
+  pose proof (chunk_nth wr n Hn1 data pos) as Hcn.
+  pose proof (chunk_len wr n Hn1 data pos) as Hcl.
+  set (data' := overwrite data pos (take n wr)) in *.
+  destruct (N.eq_dec (off + n) 1020) as [Hfull|Hpart].
+  - (* the page is filled and written *)
+    pose proof (v_write_fill b c o lg off buf wr ltac:(lia)) as V. cbv zeta in V. fold n in V.
+    set (buf1 := take off buf ++ take n wr ++ drop (off + n) buf) in *.
+    rewrite seal_sealp in V. set (P := take 1020 buf1) in *.
+    assert (HP : len P = 1020) by (unfold P; rewrite len_take; lia).
+    assert (HPn : forall j, j < 1020 -> nthN j P = nthN (1020 * pg + j) data').
+    { intros j Hj. unfold P. rewrite nthN_take, Hn1th, Hcn. subst pos. dcmp; try lia.
+      - apply Hbd. lia.
+      - f_equal. lia. }
+    subst b c. rewrite pag_overwrite in V by assumption.
+    set (np' := N.max np (pg + 1)) in *.
+    set (dl' := overwrite dl (1020 * pg) P) in *.
+    assert (Hdl' : len dl' = 1020 * np') by (unfold dl'; rewrite len_overwrite; lia).
+    rewrite (pag_len np' dl' Hdl') in V.
+    specialize (V Hfull ltac:(rewrite len_sealp; lia) ltac:(lia)).
+    destruct V as (o' & lg' & V).
+    assert (Hdd' : forall i, i < 1020 * np' -> nthN i dl' = nthN i data').
+    { intros i Hi. unfold dl'. rewrite nthN_overwrite. dcmp.
+      - rewrite Hcn. subst pos. dcmp; try lia. apply Hdd; lia.
+      - rewrite HPn by lia. f_equal. lia.
+      - rewrite Hcn. subst pos. dcmp; try lia. apply Hdd; lia. }
+    do 6 eexists. exists np', (pg + 1), dl'. split; [exact V|].
+    constructor; try lia; try reflexivity.
+    + dcmp; [|rewrite len_zeros; reflexivity].
+      replace (1024 * pg + 1024) with (1024 * (pg + 1)) by lia.
+      rewrite (pag_slice np' (pg + 1) dl' Hdl') by lia. rewrite len_sealp, len_slice. lia.
+    + intros j Hj. dcmp.
+      * replace (1024 * pg + 1024) with (1024 * (pg + 1)) by lia.
+        rewrite (pag_slice np' (pg + 1) dl' Hdl') by lia. unfold sealp. rewrite nthN_app, len_slice, nthN_slice.
+        dcmp; try lia. apply Hdd'. lia.
+      * rewrite nthN_zeros. symmetry. apply nthN_default. rewrite Hcl.
+        rewrite !pages_for_spec in Hpages. lia.
+    + intros i Hi _. apply Hdd'. assumption.
+    + right. split; [lia|]. rewrite Hcl. rewrite !pages_for_spec in *. lia.
+  - (* the chunk stays inside the page *)
+    pose proof (v_write_part b c o lg off buf wr ltac:(lia)) as V. cbv zeta in V. fold n in V.
+    specialize (V Hpart).
+    do 6 eexists. exists np, pg, dl. split; [exact V|].
+    constructor; try assumption; try lia.
+    + intros j Hj. rewrite Hn1th, Hcn. subst pos. dcmp; try lia.
+      * apply Hbd. lia.
+      * f_equal. lia.
+      * apply Hbd. lia.
+    + intros i Hi Hr. rewrite Hcn. subst pos. dcmp; try lia; apply Hdd; lia.
+    + rewrite Hcl. rewrite !pages_for_spec in *. lia.
+Qed.
+
+(** * The simulation relation on whole states *)
+
+Definition R (s : pw) (l : lstream) : Prop :=
+  d_fault (pw_dev s) = None /\
+  exists np pg dl,
+    Inv np pg dl (d_bytes (pw_dev s)) (d_cur (pw_dev s)) (pw_off s) (pw_buf s)
+        (ls_data l) (ls_pos l).
+
+Lemma R_intro np pg dl b c o lg off buf data pos :
+  Inv np pg dl b c off buf data pos -> R (St b c o lg off buf) (mkLs data pos).
+Proof. intros H. split; [reflexivity|]. exists np, pg, dl. exact H. Qed.
+
+Ltac R_elim H s l :=
+  let b := fresh "b" in let c := fresh "c" in let o := fresh "o" in
+  let f := fresh "f" in let lg := fresh "lg" in let off := fresh "off" in
+  let buf := fresh "buf" in let data := fresh "data" in let pos := fresh "pos" in
+  let np := fresh "np" in let pg := fresh "pg" in let dl := fresh "dl" in
+  let Hf := fresh "Hf" in
+  destruct s as [[b c o f lg] off buf]; destruct l as [data pos];
+  destruct H as (Hf & np & pg & dl & H);
+  cbn [pw_dev d_fault d_bytes d_cur pw_off pw_buf ls_data ls_pos] in Hf, H; subst f.
+
+Lemma ls_write_ne l bs : bs <> [] ->
+  ls_write l bs = mkLs (overwrite (ls_data l) (ls_pos l) bs) (ls_pos l + len bs).
+Proof. destruct bs; [congruence|reflexivity]. Qed.
+
+Lemma ls_write_split l wr n : 0 < n -> wr <> [] ->
+  ls_write (ls_write l (take n wr)) (drop n wr) = ls_write l wr.
+Proof.
+  intros Hn Hne. pose proof (len_pos_ne wr Hne) as Hwr.
+  assert (Ht : take n wr <> []).
+  { intros E. pose proof (len_take n wr) as L. rewrite E, len_nil in L. lia. }
+  rewrite (ls_write_ne l (take n wr) Ht).
+  destruct (drop n wr) as [|y r] eqn:E.
+  - cbn [ls_write]. pose proof (len_drop n wr) as L. rewrite E, len_nil in L.
+    rewrite take_all by lia. symmetry. apply ls_write_ne, Hne.
+  - rewrite <- E. assert (Hd : drop n wr <> []) by (rewrite E; discriminate).
+    rewrite (ls_write_ne _ _ Hd), (ls_write_ne _ _ Hne). cbn [ls_data ls_pos].
+    rewrite overwrite_overwrite, take_drop_id. f_equal.
+    rewrite len_take, len_drop. lia.
+Qed.
+
+Lemma R_write_all_loop fuel : forall wr s l,
+  R s l -> (length wr < fuel)%nat ->
+  exists s', pw_write_all_loop fuel wr s = (s', Ok tt) /\ R s' (ls_write l wr).
+Proof.
+  induction fuel as [|f IH]; intros wr s l HR Hfuel; [lia|].
+  destruct wr as [|x wr'].
+  - exists s. split; [reflexivity|exact HR].
+  - change (pw_write_all_loop (S f) (x :: wr') s) with
+      (bind (pw_write (x :: wr'))
+            (fun n => if n =? 0 then fail EIo else pw_write_all_loop f (drop n (x :: wr'))) s).
+    set (wr := x :: wr') in *.
+    assert (Hne : wr <> []) by (unfold wr; discriminate).
+    R_elim HR s l.
+    destruct (Inv_write _ _ _ _ _ o lg _ _ _ _ wr HR Hne)
+      as (b' & c' & o' & lg' & off' & buf' & np' & pg' & dl' & V & HI).
+    set (n := N.min (len wr) (1020 - off)) in *.
+    pose proof (len_pos_ne wr Hne) as Hwr.
+    pose proof (I_off _ _ _ _ _ _ _ _ _ HR) as Hoff.
+    assert (Hn0 : 0 < n) by (unfold n; lia).
+    unfold bind. rewrite V.
+    destruct (N.eqb_spec n 0) as [E|_]; [lia|].
+    rewrite <- (ls_write_split (mkLs data pos) wr n Hn0 Hne).
+    apply IH.
+    + rewrite ls_write_ne.
+      * cbn [ls_data ls_pos]. replace (len (take n wr)) with n by (rewrite len_take; lia).
+        eapply R_intro, HI.
+      * intros E. pose proof (len_take n wr) as L. rewrite E, len_nil in L. lia.
+    + pose proof (len_drop n wr) as L. unfold len in L, Hwr. lia.
+Qed.
+
+Lemma R_write_all wr s l :
+  R s l -> exists s', pw_write_all wr s = (s', Ok tt) /\ R s' (ls_write l wr).
+Proof. intros HR. apply R_write_all_loop; [assumption|lia]. Qed.
+
+Lemma R_flush s l :
+  R s l -> exists s', pw_flush s = (s', Ok tt) /\ R s' l /\
+                      d_bytes (pw_dev s') = paginate (ls_data l).
+Proof.
+  intros HR. R_elim HR s l.
+  destruct (v_flush b c o lg off buf) as (o' & lg' & V).
+  destruct (Inv_flush _ _ _ _ _ _ _ _ _ HR) as (np' & dl' & HI & Hall & Hpages & Hlen).
+  eexists. split; [exact V|]. split; [eapply R_intro, HI|].
+  cbn [pw_dev d_bytes ls_data].
+  rewrite (I_bytes _ _ _ _ _ _ _ _ _ HI). unfold paginate. rewrite Hpages.
+  f_equal. apply pad_payload_ext.
+  - rewrite (I_dl _ _ _ _ _ _ _ _ _ HI). lia.
+  - intros i Hi. apply Hall. rewrite (I_dl _ _ _ _ _ _ _ _ _ HI) in Hi. exact Hi.
+Qed.
+
+Lemma R_size s l :
+  R s l -> exists s', pw_physical_size s = (s', Ok (ls_phys_size l)) /\ R s' l.
+Proof.
+  intros HR. R_elim HR s l.
+  destruct (v_size b c o lg off buf) as (o' & lg' & V).
+  destruct (Inv_flush _ _ _ _ _ _ _ _ _ HR) as (np' & dl' & HI & Hall & Hpages & Hlen).
+  eexists. split; [|eapply R_intro, HI].
+  rewrite V. do 2 f_equal. rewrite Hlen.
+  unfold ls_phys_size, PAGE_SZ. cbn [ls_data]. rewrite Hpages. lia.
+Qed.
+
+Lemma R_seek p s l :
+  R s l -> exists s', pw_physical_seek p s = (s', res_map (fun _ => tt) (snd (ls_step (PwSeek p) l))) /\
+                      R s' (fst (ls_step (PwSeek p) l)).
+Proof.
+  intros HR. R_elim HR s l.
+  destruct (Inv_flush _ _ _ _ _ _ _ _ _ HR) as (np' & dl' & HI & Hall & Hpages & Hlen).
+  cbn [ls_step]. unfold ls_phys_size, PAGE_SZ, PAYLOAD_SZ. cbn [ls_data].
+  rewrite Hpages.
+  set (bf := if 0 <? off then overwrite b c (seal buf) else b) in *.
+  replace (np' * 1024) with (len bf) by lia.
+  destruct (len bf <? p) eqn:E1.
+  { destruct (v_seek_rej b c o lg off buf p) as (o' & lg' & V).
+    - fold bf. rewrite E1. reflexivity.
+    - eexists. split; [exact V|]. eapply R_intro, HI. }
+  destruct (1020 <=? p mod 1024) eqn:E2.
+  { destruct (v_seek_rej b c o lg off buf p) as (o' & lg' & V).
+    - fold bf. rewrite E1, E2. reflexivity.
+    - eexists. split; [exact V|]. eapply R_intro, HI. }
+  destruct HI as [Hb Hdl Hc Hpg Hoff Hbuf Hpos Hbd Hdd _].
+  destruct (v_seek_acc b c o lg off buf p) as (o' & lg' & V); try (fold bf; assumption).
+  { fold bf. lia. }
+  fold bf in V. eexists. split; [exact V|]. cbn [fst].
+  apply R_intro with (np := np') (pg := p / 1024) (dl := dl').
+  replace (p / 1024 * 1024) with (1024 * (p / 1024)) by lia.
+  apply N.ltb_ge in E1. apply N.leb_gt in E2.
+  constructor; try assumption; try lia.
+  - dcmp; [|rewrite len_zeros; reflexivity].
+    rewrite Hb, (pag_slice np' (p / 1024) dl' Hdl) by lia. rewrite len_sealp, len_slice. lia.
+  - unfold log_of_phys, PAGE_SZ. lia.
+  - intros j Hj. dcmp.
+    + rewrite Hb, (pag_slice np' (p / 1024) dl' Hdl) by lia.
+      unfold sealp. rewrite nthN_app, len_slice, nthN_slice. dcmp; try lia.
+      apply Hall. lia.
+    + rewrite nthN_zeros. symmetry. apply nthN_default.
+      rewrite pages_for_spec in Hpages. lia.
+  - intros i Hi _. apply Hall, Hi.
+Qed.
+
+Lemma R_position s l :
+  R s l -> exists s', pw_physical_position s = (s', Ok (phys_of_log (ls_pos l))) /\ R s' l.
+Proof.
+  intros HR. R_elim HR s l. rewrite v_position.
+  eexists. split; [|eapply R_intro, HR]. do 2 f_equal.
+  destruct HR as [_ _ Hc _ Hoff _ Hpos _ _ _]. cbn [ls_pos].
+  unfold phys_of_log, PAYLOAD_SZ. lia.
+Qed.
+
+Lemma R_align s l :
+  R s l -> exists s', pw_align s = (s', Ok tt) /\ R s' (fst (ls_step PwAlign l)).
+Proof.
+  intros HR. cbn [ls_step fst].
+  assert (Hm : ls_pos l mod 4 = pw_off s mod 4).
+  { destruct HR as (_ & np & pg & dl & HI). rewrite (I_pos _ _ _ _ _ _ _ _ _ HI). lia. }
+  unfold pw_align, bind, pw_get_off, ret. rewrite Hm.
+  destruct (N.eqb_spec (pw_off s mod 4) 0) as [E|E].
+  - rewrite E. change ((4 - 0) mod 4) with 0. change (zeros 0) with (@nil N).
+    exists s. split; [reflexivity|exact HR].
+  - replace ((4 - pw_off s mod 4) mod 4) with (4 - pw_off s mod 4) by lia.
+    destruct (R_write_all (zeros (4 - pw_off s mod 4)) s l HR) as (s' & V & HR').
+    exists s'. split; [|exact HR']. unfold relabel. rewrite V. reflexivity.
+Qed.
+
+(** * One step, a whole history, and the final image *)
+
+Lemma R_step o s l :
+  R s l -> exists s', pw_step o s = (s', snd (ls_step o l)) /\ R s' (fst (ls_step o l)).
+Proof.
+  intros HR. destruct o as [wr|p| | | | ]; cbn [pw_step].
+  - destruct (R_write_all wr s l HR) as (s' & V & HR').
+    exists s'. split; [|exact HR']. unfold bind, relabel, ret. rewrite V. reflexivity.
+  - destruct (R_seek p s l HR) as (s' & V & HR').
+    exists s'. split; [|exact HR']. unfold bind, ret. rewrite V.
+    destruct (snd (ls_step (PwSeek p) l)) eqn:E; cbn [res_map]; try reflexivity.
+    revert E. cbn [ls_step]. repeat match goal with |- context [if ?x then _ else _] => destruct x end;
+      cbn [snd]; congruence.
+  - destruct (R_flush s l HR) as (s' & V & HR' & _).
+    exists s'. split; [|exact HR']. unfold bind, relabel, ret. rewrite V. reflexivity.
+  - destruct (R_align s l HR) as (s' & V & HR').
+    exists s'. split; [|exact HR']. unfold bind, ret. rewrite V. reflexivity.
+  - destruct (R_position s l HR) as (s' & V & HR'). exists s'. split; assumption.
+  - destruct (R_size s l HR) as (s' & V & HR'). exists s'. split; assumption.
+Qed.
+
+Lemma R_run ops : forall s l,
+  R s l -> snd (pw_run ops s) = snd (ls_run ops l) /\
+           R (fst (pw_run ops s)) (fst (ls_run ops l)).
+Proof.
+  induction ops as [|o r IH]; intros s l HR.
+  - split; [reflexivity|exact HR].
+  - cbn [pw_run ls_run].
+    destruct (R_step o s l HR) as (s1 & V & HR1). rewrite V.
+    destruct (ls_step o l) as [l1 x] eqn:E. cbn [fst snd] in *.
+    destruct (IH s1 l1 HR1) as (Hres & HR2).
+    destruct (pw_run r s1) as [s2 xs]. destruct (ls_run r l1) as [l2 ys].
+    cbn [fst snd] in *. split; [congruence|exact HR2].
+Qed.
+
+Lemma R_init : R pw0 ls_init.
+Proof.
+  apply R_intro with (np := 0) (pg := 0) (dl := []).
+  constructor; try reflexivity; try lia.
+  - intros j Hj. rewrite nthN_zeros, nthN_nil. reflexivity.
+  - right. split; [lia|reflexivity].
+Qed.
+
+(* For EVERY history of operations, the writer model returns exactly the
+   results of the logical-stream specification, and after a flush the device
+   holds exactly paginate(logical stream). *)
+Theorem pw_run_refines : forall ops : list pw_op,
+  snd (pw_run ops pw0) = snd (ls_run ops ls_init) /\
+  snd (pw_flush (fst (pw_run ops pw0))) = Ok tt /\
+  d_bytes (pw_dev (fst (pw_flush (fst (pw_run ops pw0))))) = paginate (ls_data (fst (ls_run ops ls_init))).
+Proof.
+  intros ops. destruct (R_run ops pw0 ls_init R_init) as (Hres & HR).
+  destruct (R_flush _ _ HR) as (s' & V & _ & Hbytes).
+  rewrite V. cbn [fst snd]. auto.
+Qed.
+
+Print Assumptions pw_new_fresh.
+Print Assumptions pw_run_refines.
